@@ -1,8 +1,255 @@
-/- driver component stub: replaced by the real component when its model exists -/
+/-
+  driver component `xformer`: runs the `Float` instance of `Model/Xformer.lean` on weights
+  sent as IEEE-754 double bit patterns (decimal `UInt64`), and evaluates the float-tolerance
+  predicates of the failing-input search on data observed from the implementation.
+
+  Line format (after the component name), tokens separated by blanks, lists by commas:
+
+    <op> <nVocab> <nCtx> <nHead> <dHead> <nLayer> <causal 0|1> <pos none|learned|sin> <nOut>
+         <rows: t,t,…/t,t,…  (an empty row is -)> <masks: none | 0101…/0011… (empty row -)> <weights: bits,bits,…>
+
+  One line carries a whole batch (rows separated by `/`); the answer has one field per row,
+  separated by ` | ` — the rows are evaluated one by one (`forwardPVBatch`/`forwardTextBatch`).
+
+  weights order: emb (nVocab×d); learned pe (nCtx×d, only when pos=learned); per block
+  attn_ln.w, attn_ln.b, in_proj_weight (3d×d), in_proj_bias, out_proj.weight (d×d), out_proj.bias,
+  mlp_ln.w, mlp_ln.b, mlp_up.weight (4d×d), mlp_up.bias, mlp_down.weight (d×4d), mlp_down.bias;
+  then the head:  text: final_ln.w, final_ln.b, unembedding.weight (nOut×d), unembedding.bias;
+                  pv:   final_ln.w, final_ln.b, v_proj.weight (1×d), v_proj.bias,
+                        move_proj.weight (nOut×d), move_proj.bias  (nOut may be a SUBSET of the
+                        move ids chosen by the harness: the logits are row-wise independent).
+  ops:
+    hidden   → `ok <row> | <row> …`, row = r;r;…  each r = bits,bits,…  (no head weights)  (`Model.hidden?`)
+    text     → `ok <row> | …`, row = r;r;…  logits of every token                       (`forwardText?`)
+    pv       → `ok <row> | …`, row = v;l,l,…                                            (`forwardPV?`)
+    evaluate → `ok <row> | …`, row = v;p,p,… softmax of the logits, masks must be `none` (`evaluate`)
+    a row answers `reject` when `Model.accepts` is false (torch would raise).
+    close <tol bits> <a: bits,…> <b: bits,…>
+             → `ok true|false <maxdiff bits> <scale bits>`  (‖a−b‖∞ ≤ tol · max(1, ‖a‖∞, ‖b‖∞), no NaN)
+    range <n> <value bits> <probs bits,…>
+             → `ok true|false`  (length n, every p ≥ 0, |Σp − 1| ≤ 1e-5, −1 ≤ value ≤ 1)
+    masks enc|server <len,len,…> → `ok <padded-row-widths>;<mask rows 01…/…>` the padding mask rows
+             each call site passes to the model for rows of these lengths (`extraInputs ∘ encodeBatch`,
+             `serverBatch`)
+-/
 import TakVerif.Driver.Ser
+import TakVerif.Model.Xformer
 
 namespace Tak.Driver.Xformer
+open Tak.Xformer
 
-def handle : List String → Option String := fun _ => none
+instance : Scalar Float where
+  ofNat := Float.ofNat
+  exp := Float.exp
+  log := Float.log
+  sqrt := Float.sqrt
+  tanh := Float.tanh
+  sin := Float.sin
+  cos := Float.cos
+  lt a b := decide (a < b)
+
+/-! parsing -/
+
+def parseNats (s : String) : Option (List Nat) :=
+  if s = "-" then some [] else (s.splitOn ",").mapM String.toNat?
+
+def parseFloats (s : String) : Option (List Float) := do
+  let ns ← parseNats s
+  pure (ns.map (fun n => Float.ofBits (UInt64.ofNat n)))
+
+def parseMaskRow (s : String) : Option (List Bool) :=
+  if s = "-" then some []
+  else s.toList.mapM (fun c => if c = '0' then some false else if c = '1' then some true else none)
+
+def parseMasks (s : String) : Option (Option (List (List Bool))) :=
+  if s = "none" then some none
+  else do
+    let ms ← (s.splitOn "/").mapM parseMaskRow
+    pure (some ms)
+
+abbrev P := StateT (List Float) Option
+
+def takeN (n : Nat) : P (List Float) := do
+  let s ← get
+  if s.length < n then failure
+  set (s.drop n)
+  pure (s.take n)
+
+def takeMat : Nat → Nat → P (List (List Float))
+  | 0, _ => pure []
+  | r + 1, c => do
+    let row ← takeN c
+    let rest ← takeMat r c
+    pure (row :: rest)
+
+def takeLN (d : Nat) : P (LayerNorm Float) := do
+  let w ← takeN d
+  let b ← takeN d
+  pure ⟨w, b⟩
+
+def takeLinear (nOut nIn : Nat) : P (Linear Float) := do
+  let w ← takeMat nOut nIn
+  let b ← takeN nOut
+  pure ⟨w, b⟩
+
+def takeBlock (d : Nat) : P (Block Float) := do
+  let attnLn ← takeLN d
+  let inProj ← takeLinear (3 * d) d
+  let outProj ← takeLinear d d
+  let mlpLn ← takeLN d
+  let mlpUp ← takeLinear (4 * d) d
+  let mlpDown ← takeLinear d (4 * d)
+  pure ⟨attnLn, inProj, outProj, mlpLn, mlpUp, mlpDown⟩
+
+def takeBlocks : Nat → Nat → P (List (Block Float))
+  | 0, _ => pure []
+  | n + 1, d => do
+    let b ← takeBlock d
+    let r ← takeBlocks n d
+    pure (b :: r)
+
+structure Case where
+  model : Model Float
+  nOut : Nat
+  /-- the rows of the batch, each with its mask row (or none) -/
+  rows : List (List Nat × Option (List Bool))
+  rest : List Float
+
+def parseCase : List String → Option Case
+  | [nVocab, nCtx, nHead, dHead, nLayer, causal, pos, nOut, toks, mask, weights] => do
+    let nVocab ← nVocab.toNat?
+    let nCtx ← nCtx.toNat?
+    let nHead ← nHead.toNat?
+    let dHead ← dHead.toNat?
+    let nLayer ← nLayer.toNat?
+    let causal ← if causal = "1" then some true else if causal = "0" then some false else none
+    let nOut ← nOut.toNat?
+    let rows ← (toks.splitOn "/").mapM parseNats
+    let masks ← parseMasks mask
+    let rows ← (match masks with
+      | none => some (rows.map (fun r => (r, none)))
+      | some ms => if ms.length = rows.length then some (List.zipWith (fun r m => (r, some m)) rows ms) else none)
+    let ws ← parseFloats weights
+    let d := nHead * dHead
+    let p : P (Model Float) := do
+      let emb ← takeMat nVocab d
+      let pe : PosEnc Float ←
+        (if pos = "none" then pure PosEnc.none
+         else if pos = "sin" then pure PosEnc.sin
+         else if pos = "learned" then do
+           let t ← takeMat nCtx d
+           pure (PosEnc.learned t)
+         else failure)
+      let blocks ← takeBlocks nLayer d
+      pure { nVocab := nVocab, nCtx := nCtx, nHead := nHead, dHead := dHead, causal := causal, pos := pe,
+             emb := emb, blocks := blocks }
+    let (m, rest) ← p.run ws
+    pure ⟨m, nOut, rows, rest⟩
+  | _ => none
+
+def bits (x : Float) : String := toString x.toBits.toNat
+
+def showRow (r : List Float) : String := if r.isEmpty then "-" else ",".intercalate (r.map bits)
+
+def showRows (rs : List (List Float)) : String := if rs.isEmpty then "-" else ";".intercalate (rs.map showRow)
+
+def showMaskRow (m : List Bool) : String :=
+  if m.isEmpty then "-" else String.ofList (m.map (fun b => if b then '1' else '0'))
+
+def fabs (x : Float) : Float := if x < 0 then -x else x
+
+/-- ‖a‖∞, and whether a NaN occurs -/
+def normInf (a : List Float) : Float × Bool :=
+  a.foldl (fun (m, bad) x => (if fabs x > m then fabs x else m, bad || x.isNaN)) (0, false)
+
+def joinRows (rs : List String) : String := "ok " ++ " | ".intercalate rs
+
+def handle : List String → Option String
+  | "hidden" :: rest => do
+    let c ← parseCase rest
+    if !c.rest.isEmpty then none
+    pure (joinRows (c.rows.map (fun (toks, mask) =>
+      match c.model.hidden? toks mask with
+      | none => "reject"
+      | some h => showRows h)))
+  | "text" :: rest => do
+    let c ← parseCase rest
+    let d := c.model.dModel
+    let (H, left) ← (do
+      let ln ← takeLN d
+      let un ← takeLinear c.nOut d
+      pure (⟨ln, un⟩ : TextHead Float) : P (TextHead Float)).run c.rest
+    if !left.isEmpty then none
+    pure (joinRows (c.rows.map (fun (toks, mask) =>
+      match forwardText? c.model H toks mask with
+      | none => "reject"
+      | some h => showRows h)))
+  | op :: rest =>
+    if op = "pv" || op = "evaluate" then do
+      let c ← parseCase rest
+      let d := c.model.dModel
+      let (H, left) ← (do
+        let ln ← takeLN d
+        let vp ← takeLinear 1 d
+        let mp ← takeLinear c.nOut d
+        pure (⟨ln, vp, mp⟩ : PVHead Float) : P (PVHead Float)).run c.rest
+      if !left.isEmpty then none
+      if op = "pv" then
+        pure (joinRows (c.rows.map (fun (toks, mask) =>
+          match forwardPV? c.model H toks mask with
+          | none => "reject"
+          | some (v, l) => s!"{bits v};{showRow l}")))
+      else
+        if c.rows.any (·.2.isSome) then none
+        pure (joinRows (c.rows.map (fun (toks, _) =>
+          match forwardPV? c.model H toks none with
+          | none => "reject"
+          | some _ =>
+            let (p, v) := evaluate c.model H toks
+            s!"{bits v};{showRow p}")))
+    else if op = "close" then
+      match rest with
+      | [tol, a, b] => do
+        let tol ← parseFloats tol
+        let tol ← tol.head?
+        let a ← parseFloats a
+        let b ← parseFloats b
+        if a.length ≠ b.length then pure "ok false 0 0"
+        else
+          let (na, ba) := normInf a
+          let (nb, bb) := normInf b
+          let (nd, bd) := normInf (List.zipWith (· - ·) a b)
+          let scale := if na > nb then (if na > 1 then na else 1) else (if nb > 1 then nb else 1)
+          let good := !(ba || bb || bd) && decide (nd ≤ tol * scale)
+          pure s!"ok {good} {bits nd} {bits scale}"
+      | _ => none
+    else if op = "range" then
+      match rest with
+      | [n, v, ps] => do
+        let n ← n.toNat?
+        let v ← parseFloats v
+        let v ← v.head?
+        let ps ← parseFloats ps
+        let s := ps.foldl (· + ·) 0
+        let good := ps.length == n && ps.all (fun p => decide (p ≥ 0)) && decide (fabs (s - 1) ≤ 1e-5)
+          && decide (-1 ≤ v) && decide (v ≤ 1)
+        pure s!"ok {good}"
+      | _ => none
+    else if op = "masks" then
+      match rest with
+      | [site, lens] => do
+        let lens ← parseNats lens
+        let rows := lens.map (fun l => List.replicate l 1)
+        let (prows, ms) ←
+          (if site = "enc" then
+            let (r, m) := encodeBatch rows
+            some (r, extraInputs m)
+           else if site = "server" then some (serverBatch rows)
+           else none)
+        let widths := prows.map (·.length)
+        pure s!"ok {if widths.isEmpty then "-" else ",".intercalate (widths.map toString)};{if ms.isEmpty then "-" else "/".intercalate (ms.map showMaskRow)}"
+      | _ => none
+    else none
+  | _ => none
 
 end Tak.Driver.Xformer
